@@ -175,7 +175,10 @@ theorem missing_handshake_offends (env : Env) (s : PState) (p rest : Bytes) (m :
     (hp : s.peer = none) (hd : env.decode p = .msg m) : Offending env s (frame p ++ rest) .expectedHandshake :=
   .payload p rest _ hsz (by rw [processMessage_missing_handshake env s p m hp hd])
 
-theorem second_handshake_offends (env : Env) (s : PState) (p rest : Bytes) (pn : Name) (name : Option Name)
+/-- a repeated handshake — *partial*: the missing hypothesis is that the first handshake gave a context name
+    (`s.peer = some pn`).  The full statement "any handshake after a completed handshake is a violation" is
+    **false** of the code as it is: `repeated_handshake_accepted_after_nameless_handshake` (§7). -/
+theorem second_handshake_offends_partial (env : Env) (s : PState) (p rest : Bytes) (pn : Name) (name : Option Name)
     (ver : Nat) (server : Bool) (hsz : p.length ≤ env.maxSize) (hp : s.peer = some pn)
     (hd : env.decode p = .handshake name ver server) : Offending env s (frame p ++ rest) .secondHandshake :=
   .payload p rest _ hsz (by rw [processMessage_second_handshake env s p pn name ver server hp hd])
